@@ -497,6 +497,22 @@ def rw_flatten_results(text, log):
     return text
 
 
+def rw_continue_to_return(body, tail, log):
+    """R22: inside a loop-body slice, a `continue;` that belongs to the sliced loop itself ends this iteration: in the slice function that
+    is `return <tail>;` (the value the slice returns when the body falls through)."""
+    st = rtok.sig(rtok.lex(body))
+    loops = find_loops(st, 0, len(st) - 1)
+    inner = [(lo, lc) for (_k, lo, lc) in loops]
+    spans = []
+    for i, t in enumerate(st):
+        if t[0] == 'ident' and t[1] == 'continue' and st[i + 1][1] == ';' and not any(lo < i < lc for lo, lc in inner):
+            spans.append((t[2], t[3], 'return ' + tail.strip().rstrip(';')))
+    if spans:
+        log.append('R22 %d `continue` of the sliced loop -> `return %s`' % (len(spans), tail.strip()))
+        return _replace_spans(body, spans)
+    return body
+
+
 def rw_closure_underscore(text, log):
     """R15 (automatic): closure parameter `|_|` -> `|_e|` (Verus rejects `_` closure parameters)"""
     st = rtok.sig(rtok.lex(text))
@@ -646,14 +662,22 @@ def find_loops(st, lo, hi):
 
 
 def find_anchor(st, anchor, lo, hi):
-    want = [t[1] for t in rtok.sig(rtok.lex(anchor))]
-    hits = []
-    for i in range(lo, hi - len(want) + 1):
-        if [x[1] for x in st[i:i + len(want)]] == want:
-            hits.append(i)
-    if len(hits) != 1:
-        raise AnchorLost('anchor `%s` found %d times' % (anchor, len(hits)))
-    return hits[0], hits[0] + len(want) - 1
+    """token-sequence anchor; alternatives are separated by ` || ` (tried in order); of several hits the one that begins a statement wins"""
+    last = None
+    for alt in anchor.split(' || '):
+        want = [t[1] for t in rtok.sig(rtok.lex(alt))]
+        hits = []
+        for i in range(lo, hi - len(want) + 1):
+            if [x[1] for x in st[i:i + len(want)]] == want:
+                hits.append(i)
+        if len(hits) > 1:
+            starts = [i for i in hits if st[i - 1][1] in (';', '{', '}')]
+            if len(starts) == 1:
+                hits = starts
+        if len(hits) == 1:
+            return hits[0], hits[0] + len(want) - 1
+        last = 'anchor `%s` found %d times' % (alt, len(hits))
+    raise AnchorLost(last)
 
 
 def stmt_bounds(st, i, j, lo, hi):
@@ -963,6 +987,9 @@ def frame_conjuncts(ensures):
 
 def build_fn(fs, repo, effectful, table_keys, canary=False):
     """returns GenFn with out_lines filled"""
+    if fs.external and getattr(fs, 'skipped', False):
+        # a function left out of this run (its body is outside the subset, or one of its anchors is gone): signature and contract only
+        fs.rewrites, fs.loops, fs.inserts = [], {}, []
     g = GenFn(fs)
     path = os.path.join(repo, fs.src)
     with open(path) as f:
@@ -971,7 +998,12 @@ def build_fn(fs, repo, effectful, table_keys, canary=False):
     log = g.edits
     lifted = None
 
-    if fs.slice:
+    if fs.slice and fs.external and getattr(fs, 'skipped', False):
+        text = fs.sig + ' {\n}'
+        g.src_start = g.src_end = 0
+        g.src_hash = 'left-out'
+        sliced = True
+    elif fs.slice:
         within = fs.slice.get('within')
         wscope, _, wname = within.rpartition('::')
         outer = extract.find_fn(src, wscope.strip() or None, wname.strip())
@@ -1010,6 +1042,8 @@ def build_fn(fs, repo, effectful, table_keys, canary=False):
         else:
             raise specmod.SpecError('unknown slice kind')
         body_text = otext[s_off:e_off]
+        if fs.slice['kind'] == 'loopbody' and fs.tail:
+            body_text = rw_continue_to_return(body_text, fs.tail, log)
         line0 = outer['start_line'] + otext.count('\n', 0, s_off)
         tail = ('\n' + fs.tail) if fs.tail else ''
         text = fs.sig + ' {' + body_text + tail + '\n}'
@@ -1066,7 +1100,10 @@ def build_fn(fs, repo, effectful, table_keys, canary=False):
     text = rw_drop_inner_use(text, log)
     text = rw_closure_underscore(text, log)
     text = rw_loop_break_head(text, log)
-    text, r12 = rw_for_continue(text, log)
+    if fs.external and getattr(fs, 'skipped', False):
+        r12 = {}      # left-out function: the body is dropped, nothing to rewrite
+    else:
+        text, r12 = rw_for_continue(text, log)
     for n, (inv_t, dec_t) in r12.items():
         lp = fs.loops.setdefault(n, specmod.Loop(n))
         lp.iter = None
